@@ -493,6 +493,12 @@ def r6_constant_split(ctx, sym):
     stmts = [cm.ast('Assign', targets=[n], value=c) for n, c in zip(names, consts)]
     binop = cm.ast('BinOp', left=cm.ast('Name', id='p'), op=cm.ast('Add'), right=cm.ast('Constant', value=7))
     stmts.append(cm.ast('Expr', value=binop))
+    # CPython hands out ONE instance per operator / context class: in `w * h * d` both BinOps share the same Mult
+    # object (and so the same wrapper); a plain walk of the tree meets it twice - two occurrences
+    mult = cm.ast('Mult')
+    volume = cm.ast('BinOp', left=cm.ast('BinOp', left=cm.ast('Name', id='w'), op=mult, right=cm.ast('Name', id='h')),
+                    op=mult, right=cm.ast('Name', id='d'))
+    stmts.append(cm.ast('Expr', value=volume))
     module = cm.ast('Module', body=stmts)
     all_consts = consts + [binop.attrs['right']]
     doc_order = []
@@ -539,7 +545,8 @@ def r6_constant_split(ctx, sym):
             'Str': lambda v: type(v) is str}
     queries = [(k, [c for c in all_consts if want[k](c.attrs['value'])]) for k in ('Bool', 'Num', 'Str')]
     queries.append(('Constant', list(all_consts)))
-    queries.append(('BinOp', [binop]))
+    queries.append(('BinOp', [binop, volume, volume.attrs['left']]))
+    queries.append(('Mult', [mult]))
     queries.append(('Name', [n for n in doc_order if n.attrs['__astclass__'] == 'Name']))
     queries.append((['BinOp', 'Assign'], [n for n in doc_order if n.attrs['__astclass__'] in ('BinOp', 'Assign')]))
     queries.append(('While', []))
@@ -557,6 +564,7 @@ def r6_constant_split(ctx, sym):
             got = 'raises %s (%s)' % (e.kind, e.detail)
         except Inconclusive as e:
             raise AnalysisError("C08 R6: CaitNode.find_all outside the decidable fragment: %s" % e)
+        # (doc_order lists a shared node once per occurrence)
         want_nodes = [n.attrs['cait_node'] for n in doc_order if any(n is x for x in expect)]
         ok = isinstance(got, list) and len(got) == len(want_nodes) and all(x is y for x, y in zip(got, want_nodes))
 
